@@ -1,0 +1,20 @@
+//go:build verif
+
+package e2e
+
+import (
+	authmodulev1 "cosmossdk.io/api/cosmos/auth/module/v1"
+
+	farmtypes "mods.irisnet.org/modules/farm/types"
+)
+
+// Verification hook (build tag "verif" only). The farm module's community pool proposal path moves coins
+// through the escrow_collector module account, which this test application does not register; with the tag
+// on, the account is added to the module account permissions so that the path can be exercised.
+//
+// The file name sorts before app_config.go on purpose: package-level variables are initialised in declaration
+// order once their dependencies are ready, so this runs after moduleAccPerms and before AppConfig.
+var _ = func() bool {
+	moduleAccPerms = append(moduleAccPerms, &authmodulev1.ModuleAccountPermission{Account: farmtypes.EscrowCollector})
+	return true
+}()
